@@ -1264,11 +1264,26 @@ def _linear_norm(E, vec, ab, bad):
         """a linear upper bound on |sub| from registered norms, or None"""
         if len(sub) == 1:
             return z3.If(sub[0] >= 0, sub[0], -sub[0])
-        cands = [(w, rw) for (w, rw) in items if len(w) == len(sub)][-6:]
+        same = [(w, rw) for (w, rw) in items if len(w) == len(sub)]
+
+        def fits(pick):
+            return builtins.all(z3.is_true(z3.simplify(sub[i] - builtins.sum([w[i] for w, _ in pick][1:], pick[0][0][i]) == 0)) for i in range(len(sub)))
+
+        # the same vector again (any earlier norm), then sums of two of the last 12, then any
+        # subset of the last 6
+        for c in reversed(same):
+            if fits([c]):
+                return c[1]
+        last = same[-12:]
+        for i in range(len(last)):
+            for j in range(i + 1, len(last)):
+                if fits([last[i], last[j]]):
+                    return last[i][1] + last[j][1]
+        cands = same[-6:]
         n = len(cands)
         for mask in range(1, 1 << n):
             pick = [cands[i] for i in range(n) if mask >> i & 1]
-            if builtins.all(z3.is_true(z3.simplify(sub[i] - builtins.sum([w[i] for w, _ in pick][1:], pick[0][0][i]) == 0)) for i in range(len(sub))):
+            if len(pick) > 2 and fits(pick):
                 return builtins.sum([rw for _, rw in pick][1:], pick[0][1])
         return None
 
